@@ -2,10 +2,18 @@
    computes the RFC encoding and nni_base64_decode inverts it, for byte strings
    of every length (induction on the list in groups of three). *)
 From Coq Require Import List Arith Lia Bool NArith ZArith.
-From NngV Require Import Base.ListX Base.Bytes Codec.B64Model Codec.CodecSpec Codec.WsProofs.
+From NngV Require Import Base.ListX Base.Bytes Codec.B64Model Codec.CodecSpec.
 Import ListNotations.
 Local Open Scope N_scope.
 Ltac Zify.zify_post_hook ::= Z.to_euclidean_division_equations.
+
+Lemma forall_below (n : nat) (P : N -> bool) :
+  forallb P (map N.of_nat (seq 0 n)) = true -> forall b, b < N.of_nat n -> P b = true.
+Proof.
+  intros H b Hb. rewrite forallb_forall in H. apply H.
+  apply in_map_iff. exists (N.to_nat b). split; [apply N2Nat.id|].
+  apply in_seq. lia.
+Qed.
 
 (* ---- masks and shifts as arithmetic ---- *)
 Lemma lor_low n k a : a < 2 ^ n -> N.lor (k * 2 ^ n) a = k * 2 ^ n + a.
